@@ -65,7 +65,8 @@ PROPS_PART = {
                      what='NOTIMP for opcodes other than QUERY and QTYPE IXFR/AXFR/MAILB/MAILA / QCLASS ANY regardless of the catalog; REFUSED / SERVFAIL / answered-from-the-zone by the longest-suffix entry of the QCLASS (reference list model; NOERROR vs NXDOMAIN tells which loaded zone answered); AA clear and no records in these error responses')],
         kani=[],
         cex={},
-        unverified=['answer / answer_any (what a Loaded zone answers): C05, unit query_answer (its precondition is now proved in handle_query from the catalog contract)'],
+        unverified=['answer / answer_any (what a Loaded zone answers): C05, unit query_answer (its precondition is now proved in handle_query from the catalog contract)',
+                    'the oracle longest_suffix / labels is restated in specs/server.rs (textually the same as specs/catalog.rs, prelude/name_labels.rs): identity of the two texts is by inspection'],
         assumptions=['every catalog stored in the Server satisfies its implementation invariant (lock invariant of RwLock<Arc<C>>)'],
     ),
     'C08': dict(
